@@ -208,8 +208,16 @@ class ASTCFG(dict[str, WritableASTBlock]):
                     elif len(b.jump_targets) == 2:
                         if b.jump_targets[0] == name:
                             b.jump_targets[0] = it
-                        elif b.jump_targets[1] == name:
+                        if b.jump_targets[1] == name:
                             b.jump_targets[1] = it
+                        # If both branches turned out to be empty there is
+                        # nothing left to branch on, the test (the last
+                        # instruction) is still evaluated, as a statement.
+                        if b.jump_targets[0] == b.jump_targets[1]:
+                            b.jump_targets.pop()
+                            test = b.instructions[-1]
+                            if not isinstance(test, ast.stmt):
+                                b.instructions[-1] = ast.Expr(test)
         self.empty = empty
         return empty
 
